@@ -1096,9 +1096,9 @@ def _lazy_part(rep, tier, wd, J):
     # thread A pre-empted anywhere in its WHOLE operation (the multiplication after the construction: the loop over the table)
     for mode in ("table", "jtable", "ptable", "scale"):
         plan.append(("tiny", mode, "pt", False, True, True, None, "op"))
-    plan += [("nist256p", "table", "pt", False, True, False, 3000 if thorough else 60, "op"),
-             ("nist256p", "jtable", "pt", False, True, False, 3000 if thorough else 60, "op"),
-             ("ed25519", "table", "pt", False, True, False, 1500 if thorough else 60, "op")]
+    plan += [("nist256p", "table", "pt", False, True, False, 3000 if thorough else 40, "op"),
+             ("nist256p", "jtable", "pt", False, True, False, 3000 if thorough else 40, "op"),
+             ("ed25519", "table", "pt", False, True, False, 1500 if thorough else 40, "op")]
     plan = [p_ if len(p_) == 8 else p_ + ("fn",) for p_ in plan]
     curves = []
     for p_ in plan:
@@ -1118,7 +1118,7 @@ def _lazy_part(rep, tier, wd, J):
         if sample is not None and sample < K:       # the first and the last events (publication) always, the rest sampled
             head, tail = (150, 60) if kind == "pt" else (30, 12)
             if region == "op":
-                head, tail = 80, 220            # the multiplication proper is the tail of the operation
+                head, tail = 80, (220 if thorough else 150)     # the multiplication proper is the tail of the operation
             idxs = sorted(x for x in set(range(0, head)) | set(range(K - tail, K2 + 1)) | set(r.sample(range(K + 1), sample)) if 0 <= x <= K2)
         if kind == "pt":
             idxs.append(END)                        # ... and one run in which A is certainly through
@@ -1137,7 +1137,7 @@ def _lazy_part(rep, tier, wd, J):
             # after the construction (the last part of A's operation) and a few before
             c_ = _ctx(name)
             sub = ([x for x in idxs if thorough or x >= K - 250 or x % 8 == 0] if name == "tiny"
-                   else [x for x in idxs if x < 6 or x >= K - 120])
+                   else [x for x in idxs if x < 3 or (x >= K - 120 and (thorough or x % 3 == 0))])
             for bp in _single_programs(c_, mode, full):
                 _expect(c_, mode, full, _program(c_, mode, full, bp), bp)
                 g2 = "%s/B=%s" % (gname, bp)
@@ -1174,6 +1174,7 @@ def _lazy_part(rep, tier, wd, J):
     for e in evs:
         g = groups[e["_g"]]
         g["B_operations_per_point"] = e["res"]
+        g["recording_s"] = round(g.get("recording_s", 0) + e.get("_dur", 0), 2)
         g.setdefault("table_len_seen_by_B", set()).add(e["pub_len"])
         g.setdefault("coords_form_seen_by_B", set()).add("affine" if e["z1"] else "jacobian")
         g.setdefault("B_waited_for_A", 0)
